@@ -117,6 +117,8 @@ def reference_builds(proj, wd):
     res = vh_cases(cases, wd, "ref", templates={})
     ref = {}
     for (ver, tr), r in zip(meta, res):
+        if r.get("skipped"):
+            continue   # the runner stopped after too many hung / panicked runs (each one already reported)
         tree = {}
         for st in r["steps"]:
             tree.update(st["tree"])
@@ -417,6 +419,8 @@ def run_edges(rep, prop, wd, proj, ref, groups, rng, kinds_per_edge=1, via_cli_f
     executed = 0
     classes = set()
     for (grp, kinds, how), r in zip(meta, res):
+        if r.get("skipped"):
+            continue   # the runner stopped after too many hung / panicked runs (each one already reported)
         pre = r["steps"][0]["tree"]
         st = r["steps"][1]
         post = st["tree"]
@@ -542,6 +546,8 @@ def crash_points(rep, wd, rng, quick):
     res = vh_cases(cases, wd, "crash", templates={}, procs=8)
     crashed = 0
     for (kind, k, pre), r in zip(meta, res):
+        if r.get("skipped"):
+            continue   # the runner stopped after too many hung / panicked runs (each one already reported)
         first, second = r["steps"][0], r["steps"][1]
         if first["verdict"] == "crashed":
             crashed += 1
@@ -585,6 +591,8 @@ def clean_histories(rep, wd, rng, quick):
                     n += 1
     res = vh_cases(cases, wd, "cleanhist", templates={})
     for (proj, hist, how, failing), r in zip(meta, res):
+        if r.get("skipped"):
+            continue   # the runner stopped after too many hung / panicked runs (each one already reported)
         pre = {p: v for p, v in r["steps"][0]["tree"].items() if "dir" not in v}
         ctx = f"[scenario {proj.name}/{proj.layout} history {hist} inputs via {how}]"
         ran_before = 0
@@ -632,6 +640,8 @@ def pp_clean(rep, wd, rng, quick):
     res = pp_engine.vh_cases(vcases, wd, "ppclean")
     n = 0
     for (c, hist), r in zip(meta, res):
+        if r.get("skipped"):
+            continue   # the runner stopped after too many hung / panicked runs (each one already reported)
         n += 1
         last = r["steps"][-1]
         ctx = f"[source lines {c['src']} history {hist}]"
@@ -684,6 +694,8 @@ def verify_size_classes(rep, wd, rng, quick):
     res = pp_vh_cases_tamper(cases, wd)
     n_checked = 0
     for (n, shape, tr, tam), r in zip(meta, res):
+        if r.get("skipped"):
+            continue   # the runner stopped after too many hung / panicked runs (each one already reported)
         built, pre, ver = r["steps"][0], r["steps"][2]["tree"], r["steps"][3]
         if built["verdict"] != "ok":
             rep.note(f"(belongs to C01) build of a {n}-byte {shape} source failed")
